@@ -36,7 +36,11 @@ RULE = (
     "Layer 1: every case = (scenario builder from hsverif.scenarios, seed, hostile parameters): arrival instants "
     "in integer nanoseconds with bursts on one nanosecond (2..89 arrivals), every latency knob of the component a "
     "positive awkward value (1e-9 .. 0.25 s, thirds, non-representable decimals), capacity 1..5 below the burst "
-    "size, holders keeping a lock / permit / connection for a positive time while others wait. Each component "
+    "size, structural counts from {1,2,3,5,9,10,11,12}, holders keeping a lock / permit / connection for a positive time "
+    "while others wait, wrappers behind delaying stages and in front of zero-latency targets, degenerate operations "
+    "(empty results, zero durations, size 0/1); half of the cases additionally replace 1-2 numeric constructor "
+    "parameters of the library objects the builder creates (hsverif.scenarios._mutate: 0 where accepted, 1 ns, 0.0003 / "
+    "0.3 / 0.29 / 2.01, x1000, /1000, x7, /7; counts 1..12; probabilities 0/1). Each component "
     "family under happysimulator/components has >= 1 builder; the family of a check = the component family. "
     "The real Simulation runs under EngineProbe (push probe, 'Time travel detected' log probe, per-instant "
     "delivery counter with cap max(20000, 200 x arrivals), total cap 400000). Non-trivial: library code emitted "
